@@ -37,6 +37,10 @@ type Params struct {
 	UserOLT   string  `json:"user_olt"` // whole OLT per user / stake account
 	// NoDelegOptions: the genesis carries no network-delegation options section
 	NoDelegOptions bool  `json:"no_deleg_options,omitempty"`
+	// CarryStakeSnapshot: the genesis carries, next to the staking list, the delegation store's snapshot of the same
+	// stakes (validator totals, per validator and delegator, per delegator) as an exported state does; the snapshot
+	// replaces what the staking list put into the store
+	CarryStakeSnapshot bool `json:"carry_stake_snapshot,omitempty"`
 	Frankenstein   int64 `json:"frankenstein"` // 0 disabled
 	MaxGas         int64 `json:"max_gas"`
 	Witnesses      []int `json:"witnesses"` // validator indexes that are ethereum witnesses
@@ -312,6 +316,26 @@ func BuildGenesis(p Params) *Genesis {
 		delegState.MatureAmounts = append(delegState.MatureAmounts, &delegation.MatureData{
 			Address: v.Stake.Addr, Amount: *balance.NewAmount(pm.Amount), Height: pm.Height,
 		})
+	}
+
+	if p.CarryStakeSnapshot {
+		perDeleg := map[string]*big.Int{}
+		var order []string
+		for _, st := range staking {
+			amt := st.Amount
+			a1, a2 := amt, amt
+			delegState.ValidatorAmounts = append(delegState.ValidatorAmounts, &delegation.DelegationAmount{Address: st.ValidatorAddress, Amount: &a1})
+			delegState.ValidatorDelegationAmounts = append(delegState.ValidatorDelegationAmounts, &delegation.ValidatorDelegationAmount{Validator: st.ValidatorAddress, Delegator: st.StakeAddress, Amount: &a2})
+			k := string(st.StakeAddress)
+			if perDeleg[k] == nil {
+				perDeleg[k] = big.NewInt(0)
+				order = append(order, k)
+			}
+			perDeleg[k].Add(perDeleg[k], amt.BigInt())
+		}
+		for _, k := range order {
+			delegState.DelegatorEffectiveAmounts = append(delegState.DelegatorEffectiveAmounts, &delegation.DelegationAmount{Address: keys.Address(k), Amount: balance.NewAmountFromBigInt(perDeleg[k])})
+		}
 	}
 
 	// genesis files from before network delegation existed, and the node's own save_state dump, carry no
